@@ -1,3 +1,4 @@
+mod c03;
 mod c04;
 mod c05;
 mod c06;
@@ -26,6 +27,7 @@ fn main() {
     tool::install_panic_hook();
     match args[0].as_str() {
         "extract" => extract::main(&args[1..]),
+        "C03" => c03::main(&args[1..]),
         "C04" => c04::main(&args[1..]),
         "C05" => c05::main(&args[1..]),
         "C06" => c06::main(&args[1..]),
